@@ -110,3 +110,18 @@ Qed.
 (* below the limit nothing happens *)
 Lemma prune_small : forall maxd t, N.of_nat (length t) <= maxd -> prune maxd t = (t, 0).
 Proof. intros maxd t H. unfold prune. destruct (N.of_nat (length t) <=? maxd) eqn:E; [reflexivity | lia]. Qed.
+
+(* nothing pruned => the tree is untouched *)
+Lemma prune_zero : forall maxd t, snd (prune maxd t) = 0 -> fst (prune maxd t) = t.
+Proof.
+  intros maxd t. unfold prune.
+  destruct (N.of_nat (length t) <=? maxd); [reflexivity|].
+  set (t1 := filter _ t).
+  set (t2 := match map (fun r => gen (rid r)) (filter (fun r => negb (rdel r)) (leaves t1)) with [] => t1 | _ :: _ => _ end).
+  assert (F : exists f, t2 = filter f t).
+  { subst t2. destruct (map (fun r => gen (rid r)) (filter (fun r => negb (rdel r)) (leaves t1))).
+    - eexists. subst t1. reflexivity.
+    - unfold remove_ids. subst t1. rewrite filter_filter. eexists. reflexivity. }
+  destruct F as (f & F). cbn [fst snd]. intros H. rewrite H. cbn.
+  rewrite F in *. apply filter_length_eq. pose proof (filter_length_le f t). lia.
+Qed.
